@@ -2362,6 +2362,7 @@ func lemmaForwardSession(raw *rawEnvelope) (e *Session, e3 *Session, accepted bo
 // an id to a reply channel created for exactly that id.
 //@ struct channel
 //@   monitor processingCmdsMu protects processingCmds mapinv v != nil && chankey(v) == k
+//@   chaninv processingCmds.elem : v != nil && v.ID == chankey(ch)  ## a reply channel taken from the table only carries the response with the table key's id
 
 //@ func (*channel).sendToTransport
 //@   props C04 C06
@@ -2431,9 +2432,8 @@ func lemmaForwardSession(raw *rawEnvelope) (e *Session, e3 *Session, accepted bo
 //@   props C04 C05
 //@   requires c != nil && c.processingCmds != nil
 //@   modifies *c.processingCmds
-//@   chaninv-local respChan : v != nil && v.ID == chankey(ch)
-//@   checks [C05] @handedoveronce result ==> nsent(local.respChan) == 1 && lastsent(local.respChan) == respCmd
-//@   checks [C05] @sentonlywhenmatched !result ==> nsent(local.respChan) == 0
+//@   checks [C05] @handedoveronce result ==> nsent(channel.processingCmds.elem) == 1 && lastsent(channel.processingCmds.elem) == respCmd
+//@   checks [C05] @sentonlywhenmatched !result ==> nsent(channel.processingCmds.elem) == 0
 //@   ensures [C05] result ==> respCmd != nil
 
 //@ func (*channel).ProcessCommand
